@@ -1004,4 +1004,65 @@ Proof.
   induction l as [|h l IH]; [constructor|]. unfold sort_desc in *. simpl. apply insert_desc_sorted. auto.
 Qed.
 
+
+(* the dispatchEvents loops on the stack are exactly the flush() calls that were entered and have not returned *)
+Definition nB (t : list tr) : nat := length (filter (fun e => match e with TFlushB => true | _ => false end) t).
+Definition nE (t : list tr) : nat := length (filter (fun e => match e with TFlushE => true | _ => false end) t).
+
+Lemma flush_count_step : forall s s', qinv s -> step s = Some s' ->
+  loops (stack s) + nE (trace s) = nB (trace s) -> loops (stack s') + nE (trace s') = nB (trace s').
+Proof.
+  intros s s' Q H. unfold DispatchOrder.step in H.
+  destruct (stack s) as [|[ctx [|[n p| |] acts]| |x rem chk] k] eqn:Hstk; try discriminate.
+  - inversion H; subst; clear H. destruct ctx as [[e h]|]; unfold loops, nB, nE; simpl;
+      rewrite ?filter_app, ?app_length; simpl; lia.
+  - inversion H; subst; clear H. unfold loops, nB, nE; simpl; rewrite ?filter_app, ?app_length; simpl; lia.
+  - destruct (batch s =? 0); inversion H; subst; clear H; unfold loops, nB, nE; simpl;
+      rewrite ?filter_app, ?app_length; simpl; lia.
+  - destruct ctx as [[e h]|]; simpl in H; inversion H; subst; clear H; unfold loops, nB, nE; simpl;
+      rewrite ?filter_app, ?app_length; simpl; lia.
+  - destruct (batch s =? 0) eqn:Bz.
+    + inversion H; subst; clear H. unfold loops, nB, nE; simpl; rewrite ?filter_app, ?app_length; simpl; lia.
+    + destruct (pop_min (heap s)) as [[m h']|] eqn:Pm; inversion H; subst; clear H.
+      * unfold loops, nB, nE; simpl; rewrite ?filter_app, ?app_length; simpl; lia.
+      * exfalso. destruct Q as [B _ _ _ _]. apply pop_min_none in Pm. rewrite Pm in B. simpl in B.
+        apply Nat.eqb_neq in Bz. lia.
+  - destruct (chk && is_stopped (ictr x) (stopped s)); [|destruct rem as [|h rem']];
+      inversion H; subst; clear H; unfold loops, nB, nE; simpl; rewrite ?filter_app, ?app_length; simpl; lia.
+Qed.
+
+Theorem depth_le_active_flushes : forall prog s, reach prog s ->
+  depth (stack s) + nE (trace s) <= nB (trace s).
+Proof.
+  intros prog s R.
+  assert (E : loops (stack s) + nE (trace s) = nB (trace s)).
+  { induction R; [reflexivity|]. eapply flush_count_step; eauto using qinv_reach. }
+  pose proof (depth_le_loops _ _ R). lia.
+Qed.
+
+(* fire() only appends to the FIFO: no handler runs, no frame is pushed, heap and batch are untouched *)
+Lemma fire_only_queues : forall (s : state) ctx n p acts k,
+  stack s = FBody ctx (AFire n p :: acts) :: k ->
+  exists s', step s = Some s' /\
+    let x := Build_item p (counter s) n in
+    fifo s' = fifo s ++ [x] /\ heap s' = heap s /\ batch s' = batch s /\ stopped s' = stopped s /\
+    stack s' = FBody ctx acts :: k /\ trace s' = trace s ++ [TFire x].
+Proof.
+  intros s ctx n p acts k H. unfold DispatchOrder.step. rewrite H. eexists. split. reflexivity. simpl. repeat split.
+Qed.
+
 End P.
+
+(* the two assumptions on the priority comparison, named for the statements in Props/C02.v *)
+Definition Total (K : Type) (leb : K -> K -> bool) : Prop := forall a b : K, leb a b = true \/ leb b a = true.
+Definition Trans (K : Type) (leb : K -> K -> bool) : Prop :=
+  forall a b c : K, leb a b = true -> leb b c = true -> leb a c = true.
+
+Lemma handlers_sorted : forall (K : Type) (leb : K -> K -> bool), Total K leb -> Trans K leb -> forall l,
+  Permutation (sort_desc K leb l) l /\
+  StronglySorted (fun a b => leb (hprio b) (hprio a) = true) (sort_desc K leb l).
+Proof. intros K leb T R l. split; [apply sort_desc_perm|apply (sort_desc_sorted K leb T R)]. Qed.
+
+Lemma run_init_reach : forall (K : Type) (leb : K -> K -> bool) (hs_of : nat -> list (handler K)) prog n,
+  reach K leb hs_of prog (run K leb hs_of n (init prog)).
+Proof. intros. apply run_reach. constructor. Qed.
